@@ -794,3 +794,78 @@ LEVEL_TEXT = ("Coq theorems about the executable model of log_call (Python's bin
 LEVEL_NOTE = ("Trusted: Coq kernel; hand-written model (Model/LogCall.v) tied by correspondence; CPython's binding as reference. "
               "inspect.Signature.bind is MODELLED (sigbind) and tied by the correspondence, not verified; functools.wraps' metadata "
               "preservation (__name__, __doc__, inspect.signature) is checked per case only.")
+
+
+# ---- arguments/results that are mutable containers changed in place between and during calls, written to a JSON file ----
+def gen_mutable(rng, tier):
+    out = []
+    for _ in range(30 if tier == "quick" else 400):
+        out.append({"kind": rng.choice(["set", "set", "list", "dict"]), "init": rng.sample(range(10), rng.randrange(0, 3)),
+                    "adds": rng.sample(range(10, 30), rng.randrange(1, 4)), "nested": rng.random() < 0.3,
+                    # the enclosing action may already have logged its end message while it is still the current one
+                    # (a task that outlives the block it was created in, code after finish() inside context())
+                    "outer_finished": rng.random() < 0.3})
+    return out
+
+
+def impl_mutable(case):
+    import io
+    from eliot import _output, log_call, start_action, FileDestination
+    d = _output.Destinations()
+    _output.Logger._destinations = d
+    f = io.BytesIO()
+    d.add(FileDestination(file=f))
+
+    @log_call
+    def grow(box, x):
+        if isinstance(box, set):
+            box.add(x)
+        elif isinstance(box, list):
+            box.append(x)
+        else:
+            box[str(x)] = x
+        return box
+    box = {"set": set, "list": list, "dict": lambda xs: {str(x): x for x in xs}}[case["kind"]](case["init"])
+    results = []
+
+    def run():
+        for x in case["adds"]:
+            try:
+                r = grow(box, x)
+                results.append(r is box)
+            except BaseException as e:
+                results.append("%s: %s" % (type(e).__name__, e))
+    if case.get("outer_finished"):
+        outer = start_action(action_type="outer")
+        with outer.context():
+            outer.finish()
+            run()
+    elif case["nested"]:
+        with start_action(action_type="outer"):
+            run()
+    else:
+        run()
+    lines = [json.loads(l) for l in f.getvalue().decode("utf-8").splitlines()]
+
+    def norm(v):
+        return sorted(v) if isinstance(v, list) else (sorted(v.values()) if isinstance(v, dict) else v)
+    calls = [m for m in lines if str(m.get("action_type", "")).endswith("grow")]
+    return {"results": results, "starts": [norm(m.get("box")) for m in calls if m["action_status"] == "started"],
+            "ends": [[m["action_status"], norm(m.get("result"))] for m in calls if m["action_status"] != "started"]}
+
+
+def oracle_mutable(case, obs):
+    if obs["results"] != [True] * len(case["adds"]):
+        return "the decorated function must return the very object the undecorated one returns: %r" % (obs["results"],)
+    cur = sorted(case["init"])
+    for k, x in enumerate(case["adds"]):
+        if k >= len(obs["starts"]) or obs["starts"][k] != cur:
+            return "call %d: start message logs box=%r, Python bound %r" % (k, obs["starts"][k] if k < len(obs["starts"]) else None, cur)
+        cur = sorted(cur + [x])
+        if k >= len(obs["ends"]) or obs["ends"][k] != ["succeeded", cur]:
+            return "call %d: end message is %r, the function returned %r" % (k, obs["ends"][k] if k < len(obs["ends"]) else None, cur)
+    return None
+
+
+FAMILIES.append(Family("mutable_values", gen_mutable, impl_mutable, None, None, oracle_mutable,
+                       lambda case, obs: json.dumps(case), shard=15, case_timeout=30))
